@@ -67,7 +67,8 @@ def run(ctx):
     for r in REQUIRED:
         if not any(t.endswith("Props." + r) for t in thms):
             ctx.oblige("thm-present:" + r, False, "theorem missing or its module does not build")
-    ctx.level = "proof+correspondence"
+    ctx.level = "proof"
+    ctx.notes.append("proof (Lean 4, unbounded) + differential correspondence of the model against the real ambassador/store on generated histories")
     ctx.trusted += [
         "modelled, not verified (contracts): go-did JSON (un)marshalling and the structural flags it yields (the harness passes the parsed view), "
         "RFC 7638 JWK thumbprints (collision-free: hypothesis `hinj` of the two *_signed_by_* theorems), JWS signature verification "
